@@ -110,6 +110,7 @@ def producer_chain(repo) -> tuple[list[int], list[str]]:
     arg = expand(nexts[0].args[1], nexts[0], depth=1)
     notes.append(f"reducer passes `{ast.unparse(arg)}`")
     mrp = repo.module(RP)
+    Interp.register_module_classes(mrp)
     nxt = mrp.functions.get("_ComposableRetryPolicy.next")
     if nxt is None:
         raise AnchorError("C06.R1: _ComposableRetryPolicy.next not found")
@@ -141,6 +142,7 @@ def run(chk) -> None:
     from ._engine import engine_view
     chk.extra["helpers_inlined"] = engine_view(repo)
     mrp = repo.module(RP)
+    Interp.register_module_classes(mrp)
     vals, notes = producer_chain(repo)
     chk.extra["producer_chain"] = {"notes": notes, "values_for_retry_1_to_5": vals}
     classes = [r for r in repo.subclasses(f"{RP}:_WaitStrategyBase") if r.startswith(RP + ":")]
